@@ -966,7 +966,13 @@ def summarize(table: Table, **kwargs: ColExpr) -> Pipeable:
         elif isinstance(expr, ColFn):
             if expr.op.ftype == Ftype.WINDOW:
                 raise FunctionTypeError(f"forbidden window function `{expr.op.name}` in `summarize`")
-            elif expr.op.ftype == Ftype.AGGREGATE and "partition_by" not in expr.context_kwargs:
+            elif expr.op.ftype == Ftype.AGGREGATE:
+                if "partition_by" in expr.context_kwargs:
+                    # with `partition_by`, an aggregation function is a window function
+                    raise FunctionTypeError(
+                        f"forbidden window function `{expr.op.name}` (aggregation function with "
+                        "`partition_by` argument) in `summarize`"
+                    )
                 agg_fn_above = True
 
         for child in expr.iter_children():
